@@ -39,6 +39,8 @@ def strategy_(g):
         "pt": g.pose(R.POINT_OF[k], s=g.choice([s, 1.0])),
     }
     case["same_object"] = g.choice([False, False, True])
+    # R^n poses / points keep a view of the caller's float64 array: they may be slices of a longer buffer (a landmark table)
+    case["views"] = g.choice([False, False, True])
     if g.choice([False, False, False, True]):
         # two poses a few units apart at a large common magnitude (georeferenced coordinates), any rotation difference
         n = R.PDIM[k]
@@ -107,6 +109,17 @@ def _align_out(k, out_kind, v, v0):
 def check(case, ctx):
     k, m = case["k"], case["m"]
     a, b, pt = gs.mk_pose(case["a"]), gs.mk_pose(case["b"]), gs.mk_pose(case["pt"])
+    if case.get("views"):
+        ctx.event("euclidean-operands-are-slices-of-a-longer-buffer")
+
+        def as_slice(p, lead):
+            vals = np.asarray(p, dtype=np.float64)
+            buf = np.concatenate([np.linspace(7.0, 9.0, lead), vals, np.linspace(-5.0, -4.0, 4)])
+            return type(p)(buf[lead : lead + len(vals)])
+
+        pt = as_slice(pt, 3)
+        if k in ("r2", "r3"):
+            a, b = as_slice(a, 5), as_slice(b, 2)
     S_ = gs.max_trans(case["a"], case["b"], case["pt"])
     ctx.nontrivial(any(gs.outside_suite_box(case[x]) for x in ("a", "b", "pt")))
     ctx.event("%s:%s" % (k, m))
